@@ -524,7 +524,14 @@ class G:
         thr, x, e = self.fresh(), self.fresh(), self.fresh()
         h = self.fresh()
         inner = [("decl", x, self.lit())] + self.publish(h, [], self.inc_body(x)) + [("assign", x, ADD(V(x), L(2)))]
-        k = r.choice(["frame", "block", "frame2"])
+        k = r.choice(["frame", "block", "frame2", "tryblock", "tryblock"])
+        if k == "tryblock":
+            # the captured variable is the FIRST local of the try block: it sits exactly at the handler's stack height, the
+            # slot into which unwind_stack pushes the exception
+            self.tags.add("try_block_first_local_captured")
+            after = [("decl", self.fresh(), L(2000))] + self.observe([CALL(h)], 2)
+            return [self.dummy(h), ("try", inner + [("throw", L(7))], e, [("print", V(e))] + self.observe([CALL(h)], 1)),
+                    ("block", after)]
         if k == "frame":
             body = inner + [("throw", L(7))]
         elif k == "block":
